@@ -352,6 +352,16 @@ pub fn run(tier: &str) -> Result<Report, String> {
         deep.push("a & ".repeat(d) + "a");
         deep.push("a & ".repeat(d));
     }
+    // long inputs with multi-byte names (error messages that cut text at a byte offset): every alignment of
+    // 2-, 3- and 4-byte characters against offsets 0..47, as juxtaposed operands (invalid) and as a conjunction (valid shape, unknown names)
+    for ch in ["é", "細", "𝔸"] {
+        for i in 0..48usize {
+            deep.push(format!("{}{} b", "a".repeat(i), ch.repeat(150)));
+            deep.push(format!("{} {}", "a".repeat(i + 1), format!("{ch} ").repeat(120)));
+            deep.push(format!("{}{} & {}", "a".repeat(i), ch.repeat(150), ch.repeat(90)));
+            deep.push(format!("!{{{}{}}}: AX {{x}}", "x".repeat(i), ch.repeat(120)));
+        }
+    }
     deep.push("!{x}: !{xx}: !{xxx}: !{xxxx}: ({x} & {xxxx})".into());
     deep.push("!{x}: !{xx}: !{xxx}: ({x} & {xxx})".into());
     for s in &deep {
@@ -404,7 +414,7 @@ pub fn run(tier: &str) -> Result<Report, String> {
     rep.sample(json!({"input": "!{x}: @{y}: a", "expected": "Err from every entry point (free jump target), for every k"}));
     rep.sample(json!({"input": "3{y} in %d%: ~ {y}", "labels_present": ["p"], "expected": "Err (domain d has no context set)"}));
     rep.sample(json!({"input": "3{y} in %d%: ~ {y}", "labels_present": ["p", "d"], "k": 0, "expected": "Err (needs 1 spare variable set)"}));
-    rep.rule = format!("(a) every sequence of 1..{t} tokens over {TOKENS:?} and every string of 1..{k} symbols over {CHARS:?} through all 25 string entry points (plain, dirty, multiple, extended, unsafe_ex, callback variants, lists [valid,s] / [s,valid] with a short and with a tall valid formula) on graphs with k=0,2 (k=0..3 when the grammar derives the string) spare variable sets; (b) every closed extended formula with <= {m} nodes x every subset of its required labels (sets: mixed / empty / full / colour-disjoint families) x k in {{depth-1, depth, 3}}; (b2) every tree with at most 5 (thorough 7) nodes over the binder-focused alphabet {{a, x, y, AX, &, !, 3, V, @}} printed and given to all 25 entry points (ill-scoped: Err; well-scoped: Ok when k suffices); (c) {} deep inputs (nesting 10 and 40). Oracle: Ok iff reference parser accepts, scope rules hold, all labels present and k >= nesting depth; Err otherwise; a panic is always a violation. distinct_nontrivial = number of enumerated strings the grammar derives", deep.len());
+    rep.rule = format!("(a) every sequence of 1..{t} tokens over {TOKENS:?} and every string of 1..{k} symbols over {CHARS:?} through all 25 string entry points (plain, dirty, multiple, extended, unsafe_ex, callback variants, lists [valid,s] / [s,valid] with a short and with a tall valid formula) on graphs with k=0,2 (k=0..3 when the grammar derives the string) spare variable sets; (b) every closed extended formula with <= {m} nodes x every subset of its required labels (sets: mixed / empty / full / colour-disjoint families) x k in {{depth-1, depth, 3}}; (b2) every tree with at most 5 (thorough 7) nodes over the binder-focused alphabet {{a, x, y, AX, &, !, 3, V, @}} printed and given to all 25 entry points (ill-scoped: Err; well-scoped: Ok when k suffices); (c) {} deep / long inputs (nesting 10 and 40; long names of 2-, 3- and 4-byte characters at every byte alignment). Oracle: Ok iff reference parser accepts, scope rules hold, all labels present and k >= nesting depth; Err otherwise; a panic is always a violation. distinct_nontrivial = number of enumerated strings the grammar derives", deep.len());
     rep.assumptions.push("context sets satisfy the documented precondition (inside the unit set, independent of auxiliary variables)".into());
     Ok(rep)
 }
